@@ -144,7 +144,21 @@ static Case draw() {
     for (int b = 0; b < nblocks && (int)v.size() < MAXCELLS; b++) {
         int kind = rpick({3, 3, 2, 2, 2, 1});
         if (r == 0) kind = 3;
+        if (r >= 1 && r <= (MAXCELLS > 5000 ? 3 : 2) && b == 0 && rpick({2, 1}) == 1) kind = 6;
         switch (kind) {
+            case 6: {  // complete descendants of several whole base cells: compaction runs all the way down to resolution 0
+                int k = rpick({3, 1}) == 0 ? ri(1, 12) : (rpick({2, 1}) == 0 ? ri(6, 40) : 122);
+                if (r == 3 && k > 30) k = 30;
+                uint64_t s0 = r64();
+                std::vector<int> bcs(122);
+                for (int i = 0; i < 122; i++) bcs[(size_t)i] = i;
+                for (size_t i = 122; i > 1; i--) std::swap(bcs[i - 1], bcs[(size_t)(splitmix(s0) % i)]);
+                int zero[16] = {0};
+                for (int i = 0; i < k; i++) addSubtree(v, ref::make_cell(0, bcs[(size_t)i], zero), r);
+                if (rpick({2, 1}) == 1 && !v.empty()) v.erase(v.begin() + (long)(r64() % v.size()));
+                c.flags |= 1;
+                break;
+            }
             case 0: {  // whole sub-tree of an ancestor d levels up
                 int d = ri(1, std::min(r, MAXCELLS > 5000 ? 6 : 4));
                 gen::GCell g = gen::cellRes(r - d, {3, 3, 1, 1, 0, 0, 1});
